@@ -1,9 +1,10 @@
 (* C03 — level-triggered cancellation: nothing stays blocked in a cancelled scope.
    This file contains only statements closed by `exact` and their Print Assumptions.
-   reach_ok s = s is reached from init by an op list of the generated domain (TreeStep.op_ok: AEnter/AExit only
-   on allocated scopes that are neither a task group's own scope nor a task handle's scope, AGroupEnter on
-   allocated groups, AFinish only at the task's base scope, ARun (HWake t f) only for f = the task's waiter). *)
-From AV Require Import Base Machine ScopeFrames DeliverInv TreeInv DeliverAlive TreeStep DeliverThms.
+   reach_ok s = s is reached from init by an op list of the generated domain (TreeStep.op_ok: AEnter only on
+   allocated scopes that are neither a task group's own scope nor a task handle's scope, AExit on such scopes
+   or when it is rejected by its guards anyway, AGroupEnter on allocated groups, AFinish only at the task's
+   base scope, ARun (HWake t f) only for f = the task's waiter). *)
+From AV Require Import Base Machine ScopeFrames DeliverInv TreeInv DeliverAlive PotentialInv TreeStep KernelInv DeliverThms.
 
 (* I4: a cancelled, hosted scope that some live task still reaches (walk from the task's current scope up the
    parent links through scopes that are neither shielded nor cancelled) has its delivery callback scheduled *)
@@ -22,7 +23,7 @@ Print Assumptions C03_tree_invariant.
 (* running the scheduled callback in a reachable state: every reached task that can take a request gets one
    carrying the scope as origin, and the callback is re-scheduled iff somebody is still reached *)
 Theorem C03_deliver_cancels_reach : forall s c,
-  reach_ok s -> wait_link s -> In (HDeliver c) (ready s) ->
+  reach_ok s -> In (HDeliver c) (ready s) ->
   let s' := fst (step s (ARun (HDeliver c))) in
   (forall t, reaches s t c -> takes_request s t -> requested s' t (S c)) /\
   ((exists t, reaches s t c) -> s_chandle (scopes s' c) = true /\ In (HDeliver c) (ready s')) /\
@@ -43,6 +44,11 @@ Theorem C03_deliver_top_spec : forall s c, wait_link s ->
      s_chandle (scopes s' c) = false).
 Proof. exact deliver_top_spec. Qed.
 Print Assumptions C03_deliver_top_spec.
+
+(* K: the link between a waiting task and its future holds after EVERY op sequence (no domain restriction) *)
+Theorem C03_wait_link : forall ops, wait_link (final step init ops).
+Proof. exact reach_wait_link. Qed.
+Print Assumptions C03_wait_link.
 
 (* K: the request is what the task receives at its next step ... *)
 Theorem C03_cancelled_request_is_delivered : forall s t o,
@@ -91,3 +97,33 @@ Theorem C03_exit_restarts_parent : forall s c t exc,
              fst (scope_exit s c t exc) = upd_scope s6 c (sc_host None).
 Proof. exact exit_restarts_parent. Qed.
 Print Assumptions C03_exit_restarts_parent.
+
+(* bounded response under FIFO, the one-cycle pieces (the glue between them is not proved, hence _partial):
+   the delivery callback is in the ready queue; running it cancels the task's wait and schedules its wake-up;
+   running the wake-up raises the cancellation with the scope as origin *)
+Theorem C03_cancel_latency_le_2_cycles_partial : forall s t c f,
+  reach_ok s -> s_cancelled (scopes s c) = true -> s_host (scopes s c) <> None -> reaches s t c ->
+  k_must (tasks s t) = false -> k_started (tasks s t) = true ->
+  k_waiter (tasks s t) = Some f -> f_st (futs s f) = FPend ->
+  match k_ctl (tasks s t) with
+  | CYield YCheckpoint | CYield YCkIf | CSleep _ _ | CHandleWait _ _ => True
+  | _ => False
+  end ->
+  let s1 := fst (step s (ARun (HDeliver c))) in
+  In (HDeliver c) (ready s) /\
+  In (HWake t f) (ready s1) /\
+  snd (step s1 (ARun (HWake t f))) = RExc (ECancel (S c)).
+Proof. exact cancel_latency_le_2_cycles_partial. Qed.
+Print Assumptions C03_cancel_latency_le_2_cycles_partial.
+
+Theorem C03_ckif_spin_terminates_partial : forall s t c,
+  reach_ok s -> s_cancelled (scopes s c) = true -> s_host (scopes s c) <> None -> reaches s t c ->
+  k_must (tasks s t) = false -> k_started (tasks s t) = true -> k_waiter (tasks s t) = None ->
+  In (HStep t) (ready s) ->
+  match k_ctl (tasks s t) with CYield YCheckpoint | CYield YCkIf => True | _ => False end ->
+  let s1 := fst (step s (ARun (HDeliver c))) in
+  In (HDeliver c) (ready s) /\
+  In (HStep t) (ready s1) /\
+  snd (step s1 (ARun (HStep t))) = RExc (ECancel (S c)).
+Proof. exact ckif_spin_terminates_partial. Qed.
+Print Assumptions C03_ckif_spin_terminates_partial.
